@@ -127,6 +127,8 @@ def lruAfter (s : S) (r : Req) (res : St × Out) : S :=
 def step (s : S) : List String → S × String
   | ["reset"] => ({}, "ok")
   | ["cap", n, e] => ({ s with capN := nat! n, capE := nat! e }, "ok")
+  -- the GeoIP databases are refreshed: the tables are replaced, the caches live on
+  | ["regeo"] => ({ s with data := [], sub := [] }, "ok")
   | ["fake", h] => ({ s with fake := nat! h :: s.fake }, "ok")
   | ["data", f, a, c, sd, asn] =>
     ({ s with data := ((fam! f, nat! a), ⟨nat! c, nat! sd, nat! asn⟩) :: s.data }, "ok")
